@@ -19,7 +19,7 @@ type hrow struct {
 	key    slotKey
 	vals   string // hex
 	jan1   bool   // daily bucket, slot index 0 (finding class daily-jan1)
-	xyear  bool   // its batch is not sorted by year (finding class cross-year-unsorted)
+	xyear  bool   // its batch is not sorted by year (coverage tag only: the former class cross-year-unsorted is fixed, /repo 49eddda)
 	varbkt bool
 }
 
@@ -235,23 +235,10 @@ func (h *History) OracleC01(d *Decoded, o Obs) (fails []Verdict) {
 		switch {
 		case r.jan1:
 			return "daily-jan1"
-		case r.xyear:
-			return "cross-year-unsorted"
 		case o.B[bi].Code == 2 && p.inWindow:
 			return "crash-inside-continuation-write"
 		case o.B[bi].Code == 4 && p.noHeader[h.Buckets[bi].Key]:
 			return "crash-inside-year-file-creation"
-		}
-		// a cross-year-unsorted request may also clobber a neighbour of the same bucket
-		for si := range h.Steps {
-			if !p.acked[si] && si != p.inflight {
-				continue
-			}
-			for _, q := range rows[si] {
-				if q.xyear && q.key.bucket == r.key.bucket {
-					return "cross-year-unsorted"
-				}
-			}
 		}
 		return ""
 	}
@@ -293,7 +280,6 @@ func (h *History) OracleC02(d *Decoded, o Obs) (fails []Verdict) {
 	got := h.recovered(d, o)
 	issued := map[slotKey]map[string]int{} // acked or in flight
 	ackedN := map[slotKey]map[string]int{}
-	xyearB := map[int]bool{}
 	for si := range h.Steps {
 		if !p.acked[si] && si != p.inflight {
 			continue
@@ -307,15 +293,9 @@ func (h *History) OracleC02(d *Decoded, o Obs) (fails []Verdict) {
 			if p.acked[si] {
 				ackedN[r.key][r.vals]++
 			}
-			if r.xyear {
-				xyearB[r.key.bucket] = true
-			}
 		}
 	}
 	cls := func(bucket int, variable bool) string {
-		if xyearB[bucket] {
-			return "cross-year-unsorted"
-		}
 		if variable && p.varUnchecked {
 			return "variable-tg-applied-unchecked"
 		}
@@ -363,11 +343,6 @@ func (h *History) OracleC02(d *Decoded, o Obs) (fails []Verdict) {
 		}
 		if present > 0 && absent > 0 {
 			c := ""
-			for _, r := range rows[p.inflight] {
-				if r.xyear {
-					c = "cross-year-unsorted"
-				}
-			}
 			fails = append(fails, Verdict{false, c, fmt.Sprintf("k=%d: in-flight request %d partially applied (%d rows present, %d absent)", o.K, p.inflight, present, absent)})
 		}
 	}
